@@ -82,6 +82,7 @@ func Run(o *hx.Opts, w *lineio.Writer, prop int) error {
 			defer wg.Done()
 			for i := range ch {
 				in := jobs[i].in
+				in.Container.Rest = FromContainer(ToContainer(&in.Container, false)).Rest
 				obs, err := r.RunCase(&in)
 				if err != nil {
 					emu.Lock()
